@@ -162,6 +162,8 @@ def tlc(wd, module, cfg, workers=None, timeout=600, extra=None, deque=False, fil
                 t2 = t2.replace("@@%s@@" % k, str(v))
             if t2 != t:
                 open(p, "w").write(t2)
+    if not cfg.strip():
+        workers = 1     # constant evaluation (no behaviour): more workers only slow the JVM down (measured 16 s vs 91 s)
     meta = os.path.join(wd, "meta-%d" % (int(time.time() * 1000000) % 10000000))
     cmd = ["java", "-XX:+UseParallelGC", "-Xss256m"]
     if heap:
